@@ -260,7 +260,7 @@ func builderPairing(c *Ctx, rule string, only ...string) {
 		// (3b) a key whose emission is not under a presence test / builder flag is written on every path of a present node
 		{
 			presence := func(gd string) bool {
-				return sanctionedEmissionGuard(gd, param) && gd != param+".IgnoreCase" && gd != "!("+param+".IgnoreCase)"
+				return sanctionedEmissionGuard(gd, param) && gd != param+".IgnoreCase" && gd != "!"+param+".IgnoreCase"
 			}
 			keyOf := func(ce *ast.CallExpr) string {
 				if cn := callName(ce); (cn != "b.writelnf" && cn != "b.writef") || len(ce.Args) == 0 {
@@ -359,7 +359,7 @@ func builderPairing(c *Ctx, rule string, only ...string) {
 // sanctionedEmissionGuard: conditions allowed around an emission in a builder writer.
 func sanctionedEmissionGuard(gd, param string) bool {
 	switch gd {
-	case "b.haveLeftRecursion", "b.basicLatinLookupTable", param + ".IgnoreCase", "!(" + param + ".IgnoreCase)":
+	case "b.haveLeftRecursion", "b.basicLatinLookupTable", param + ".IgnoreCase", "!" + param + ".IgnoreCase":
 		return true
 	}
 	if m := regexp.MustCompile(`^len\(` + regexp.QuoteMeta(param) + `\.\w+\)>0$`).MatchString(gd); m {
